@@ -636,7 +636,7 @@ class C04:
                 ok, _ = self.source_table_agreement()
                 return ok
             return False
-        if q == "resolve._resolve_id_citation" and "[last_resolution]" in bt:
+        if q.startswith("resolve.") and "[last_resolution]" in bt:
             return guarded(fn, s, {"last_resolution"})  # key exists with a non-empty list once a resolution was made (C06 O3)
         return False
 
@@ -917,6 +917,21 @@ class C04:
                         keys = {x.value for x in k.value.keys}
                     elif isinstance(k.value, ast.Call) and isinstance(k.value.func, ast.Attribute) and k.value.func.attr == "groupdict":
                         keys = self._dynamic_group_names(fn)
+                    elif isinstance(k.value, ast.Dict) and any(x is None for x in k.value.keys):
+                        # {**m.groupdict(), "literal": ..}: the unpacked group names plus the literal keys
+                        keys = set()
+                        for kk, vv in zip(k.value.keys, k.value.values):
+                            if kk is None:
+                                if isinstance(vv, ast.Call) and isinstance(vv.func, ast.Attribute) and vv.func.attr == "groupdict":
+                                    g_ = self._dynamic_group_names(fn)
+                                    keys = None if g_ is None or keys is None else keys | g_
+                                else:
+                                    keys = None
+                            elif isinstance(kk, ast.Constant) and isinstance(kk.value, str):
+                                if keys is not None:
+                                    keys.add(kk.value)
+                            else:
+                                keys = None
                     elif isinstance(k.value, ast.Name):
                         keys = self._dict_local_keys(fn, k.value.id)
                     n += 1
